@@ -1,6 +1,7 @@
 SPEC = {
-    "lean_modules": ["AM.Props.C07", "AM.Props.C15"],
+    "lean_modules": ["AM.Props.Suppress", "AM.Props.C07", "AM.Props.C15"],
     "theorems": [
+        "AM.Suppress.time_muted_nothing_survives", "AM.Suppress.time_muted_path_empty", "AM.Suppress.suppressed_never_notified",
         # calendar (AM.Base.Calendar)
         "AM.Calendar.civil_roundtrip", "AM.Calendar.civil_roundtrip_inv", "AM.Calendar.civil_valid",
         "AM.Calendar.civil_unique", "AM.Calendar.toDays_injective",
